@@ -43,6 +43,39 @@ add("leaf::l_emit_one_match", ["C10"],
     functions=["deflate::core::record_match", "compress_lz_codes", "LEN_SYM", "LEN_EXTRA", "SMALL_DIST_SYM", "SMALL_DIST_EXTRA", "LARGE_DIST_SYM", "LARGE_DIST_EXTRA", "BitBuffer::put_fast", "BitBuffer::flush", "OutputBufferOxide::put_bits"],
     timeout=600)
 
+# ----------------------------------------------------------------- W tier, compressor side
+def _route_args(env):
+    env = dict(env)
+    env["fmt_s"] = "zlib" if env.get("fmt", 0) == 1 else "raw"
+    return env
+
+def _route_sig(env):
+    lvl = min(env.get("level", 0), 10)
+    w = min(env.get("wb", 0), 15)
+    strat = env.get("strat", 0)
+    if lvl != 0 and (strat == 3 or (w < 12 and strat != 2)):
+        return "rle-flag-not-routed-to-compress_normal"
+    return "other-routing"
+
+_ROUTE_COMMON = dict(
+    kind="W", timeout=600, mem_gb=16,
+    functions=["deflate::core::CompressorOxide::with_params", "limit_level_by_window_bits", "create_comp_flags_from_zip_params",
+               "compress", "compress_inner", "flush_output_buffer", "ParamsOxide::new", "DictOxide::new"],
+    stubs=["compress_fast -> dcore :: verif :: mark_compress_fast", "compress_normal -> dcore :: verif :: mark_compress_normal",
+           "compress_stored -> dcore :: verif :: mark_compress_stored", "flush_block -> dcore :: verif :: mark_flush_block"],
+    assumes=["the three back ends behave as their names say once selected (decided separately where a harness reaches them)"],
+    replay=dict(kind="native", vals=["fmt", "level", "strat", "wb"], map=_route_args,
+                cmd=["route", "{fmt_s}", "{level}", "{strat}", "{wb}"], sig=_route_sig))
+_ROUTE_BOUND = "all (format in {raw, zlib}) x level u8 x 5 strategies x window_bits u8 (exact); back ends and flush_block are marker stubs"
+add("wrap_deflate::w_routing_c10", ["C10"],
+    "settings -> flags (level 0 <=> raw; strategy -> its flag; huffman-only -> 0 probes) and flags -> back end: raw -> compress_stored; "
+    "filter -> compress_normal; RLE requested -> compress_normal (the only back end that restricts matches to distance 1); else fast iff one probe and greedy",
+    _ROUTE_BOUND, **_ROUTE_COMMON)
+add("wrap_deflate::w_routing_c11", ["C11"],
+    "zlib with window_bits < 12 (header declares <= 2 KiB): RLE flag is forced (unless huffman-only / level 0) and the RLE-implementing back end is selected; "
+    "window_bits < 15 => at most one probe",
+    _ROUTE_BOUND, **_ROUTE_COMMON)
+
 
 def all_harnesses():
     gen = os.path.join(VERIF, "kani", "src", "gen", "registry.json")
